@@ -1,11 +1,11 @@
 SPECIFICATION Spec
 CONSTANTS
-  DirCls <- DirClsAll
-  Namings <- NamingsAll
+  DirCls <- DirClsEmpty
+  Namings <- NamingsNum
   FmtCls <- FmtClsAll
-  OutCls <- OutClsFile
-  OpCls <- OpClsQ
-  MaxOps = 2
+  OutCls <- OutClsAll
+  OpCls <- OpClsStd
+  MaxOps = 3
   GenHist = TRUE
 INVARIANT Emit
 VIEW View
